@@ -6,6 +6,7 @@ import (
 	"io"
 	"log"
 	"os"
+	"time"
 
 	"verif/lab"
 )
@@ -26,5 +27,14 @@ func main() {
 		fmt.Fprintf(os.Stderr, "ERROR: unknown check %q\n", *id)
 		os.Exit(2)
 	}
+	// a check never runs for ever: a fired watchdog is "neither claimed nor alarmed" (exit 2)
+	limit := 40 * time.Minute
+	if *tier != "quick" {
+		limit = 150 * time.Minute
+	}
+	time.AfterFunc(limit, func() {
+		fmt.Printf("ERROR: [%s] watchdog: the check did not finish within %v (inconclusive)\n", *id, limit)
+		os.Exit(2)
+	})
 	os.Exit(f(l, *verif))
 }
